@@ -1,6 +1,7 @@
 package interp
 
 import (
+	"strconv"
 	"go/types"
 	"regexp"
 	"strings"
@@ -58,7 +59,9 @@ func (m *Machine) nativeMethod(typeName, method string) Value {
 			set("VerifSignedHeaders", st.headers)
 			set("VerifSignedAlg", st.alg)
 			set("VerifSignedKey", st.key)
-			return Tuple{m.mkStr("header.payload.signature"), Iface{}}
+			// every serialised token is a distinct text (the signature covers jti / iat and the key)
+			m.tokenSeq++
+			return Tuple{m.mkStr("header.payload.signature-" + strconv.Itoa(m.tokenSeq)), Iface{}}
 		}
 		m.unsupported("%s.%s", typeName, method)
 		return nil
@@ -183,6 +186,14 @@ func addStubIntrinsics(t map[string]intrinsic) {
 		(*cell).(Struct)[hi] = Slice{A: []Value{hdr}}
 		return Tuple{cell, Iface{}}
 	}
+	// RFC 7638 thumbprint of a JWK: a deterministic, injective function of the public key (here: of the
+	// value the harness uses as public key — a concrete marker text)
+	t["(*github.com/go-jose/go-jose/v4.JSONWebKey).Thumbprint"] = func(m *Machine, fr *frame, a []Value) Value {
+		p := m.ptrArg(a[0], "JSONWebKey.Thumbprint")
+		jt := m.lookupType("github.com/go-jose/go-jose/v4", "JSONWebKey")
+		key := (*p).(Struct)[fieldIndex(jt, "Key")]
+		return Tuple{m.bytesToSlice(m.mkStr("thumbprint:" + m.DebugString(key)).B), Iface{}}
+	}
 	t["(*"+authn+".jwtAuthenticator).fetchJWKS"] = func(m *Machine, fr *frame, a []Value) Value {
 		return Tuple{harnessGlobal(m, "VerifJWKS"), harnessGlobal(m, "VerifJWKSErr")}
 	}
@@ -211,7 +222,27 @@ func addStubIntrinsics(t map[string]intrinsic) {
 		}
 		return Slice{Nil: true}
 	}
-	t["os.Stat"] = func(m *Machine, fr *frame, a []Value) Value { return Tuple{Iface{}, Iface{}} }
+	t["os.Stat"] = func(m *Machine, fr *frame, a []Value) Value {
+		if hf := m.harnessFunc(fr, "VerifOSStat"); hf != nil {
+			return m.callFunction(fr, hf, a, nil)
+		}
+		return Tuple{Iface{}, Iface{}}
+	}
+	t["(*os.File).Close"] = func(m *Machine, fr *frame, a []Value) Value { return Iface{} }
+	t["(*os.File).Stat"] = func(m *Machine, fr *frame, a []Value) Value {
+		if hf := m.harnessFunc(fr, "VerifFileStat"); hf != nil {
+			return m.callFunction(fr, hf, a, nil)
+		}
+		m.unsupported("(*os.File).Stat without a harness function VerifFileStat")
+		return nil
+	}
+	t["os.Open"] = func(m *Machine, fr *frame, a []Value) Value {
+		if hf := m.harnessFunc(fr, "VerifOSOpen"); hf != nil {
+			return m.callFunction(fr, hf, a, nil)
+		}
+		m.unsupported("os.Open without a harness function VerifOSOpen")
+		return nil
+	}
 	// regular expressions on concrete input run natively
 	t["regexp.MustCompile"] = func(m *Machine, fr *frame, a []Value) Value {
 		return Native{regexp.MustCompile(m.goString(a[0], "regexp.MustCompile"))}
